@@ -211,8 +211,10 @@ def run(ctx):  # noqa: C901, PLR0912
             if isinstance(n, ast.Return) and isinstance(n.value, (ast.List, ast.Dict)):
                 ctx.ob('C12.R2', f'{repo.classes[q].name}.__get__ returns fresh literal', True,
                        'a fresh container per call (not shared)', fi=fi, node=n)
-            if isinstance(n, ast.Call) and call_name(n) == 'setattr' and len(n.args) == 3 and \
-                    isinstance(n.args[2], (ast.List, ast.Dict)):
+            if isinstance(n, ast.Call) and call_name(n) == 'setattr' and len(n.args) == 3 and (
+                    isinstance(n.args[2], (ast.List, ast.Dict)) or
+                    (isinstance(n.args[2], ast.Name) and any(isinstance(v, (ast.List, ast.Dict)) for v in
+                                                             local_assignments(fi.node).get(n.args[2].id, [])))):
                 ok = isinstance(n.args[0], ast.Name) and n.args[0].id == 'instance'
                 ctx.ob('C12.R2', f'{repo.classes[q].name}.__get__ lazy container', ok,
                        'the lazily created container is stored on the instance', fi=fi, node=n)
@@ -230,6 +232,8 @@ def run(ctx):  # noqa: C901, PLR0912
                                    f'{repo.classes[q].name}.{fi.name} stores per-call data on the class-level descriptor '
                                    f'object ({unparse(t)}), which is shared by all instances', fi=fi, node=n)
 
+    from . import common
+    common.copies_are_deep(ctx, 'C12.R3', with_mk_copy=False)
     # ------------------------------------------------------------------ R3
     mk = repo.func('sdc11073.mdib.containerbase.ContainerBase.mk_copy')
     deep, why = _mk_copy_is_deep(mk)
